@@ -22,8 +22,9 @@ where
 
         if from < stored_len {
             let stored_to = to.min(stored_len);
-            let reader = self.create_reader();
+            // Lock order: pages before the reader's mmap guard.
             let pages = self.pages.read();
+            let reader = self.create_reader();
             Self::read_stored_pages_into(&reader, &pages, from, stored_to, buf);
         }
 
